@@ -151,7 +151,7 @@ class E(Tr):
         if isinstance(f, ast.Attribute) and f.attr == "all" and not n.args and isinstance(f.value, ast.Call) \
                 and self.dotted(f.value.func) == "np.isclose" and len(f.value.args) == 2 and not f.value.keywords:
             a, b = f.value.args
-            return f"(CR.PyC20.allClose {self.e(a)} {self.e(b)})"
+            return f"(CR.Arc.ptClose {self.e(a)} {self.e(b)})"      # np.isclose(p, q).all(), model: ArcLen.lean isClose
         kw = {k.arg: k.value for k in n.keywords}
         if d in o.get("kwcalls", {}):
             fn, monadic, order = o["kwcalls"][d]
@@ -191,7 +191,7 @@ class E(Tr):
         if d == "int" and len(n.args) == 1 and isinstance(n.args[0], ast.BinOp) and isinstance(n.args[0].op, ast.Add):
             a, b = n.args[0].left, n.args[0].right
             if all(isinstance(x, ast.Call) and self.dotted(x.func) == "str" and len(x.args) == 1 for x in (a, b)):
-                return f"(CR.PyC20.concatId {self.e(a.args[0])} {self.e(b.args[0])})"
+                return f"(CR.Arc.concatId {self.e(a.args[0])} {self.e(b.args[0])})"    # int(str(a) + str(b))
             raise Unsupported("int(...) of something else than str + str")
         if d == "zip" and len(n.args) == 2:
             return f"(List.zip {self.e(n.args[0])} {self.e(n.args[1])})"
